@@ -29,11 +29,11 @@ fn round_ratio(got: &[f64], want: &[f64], hf: &[f64]) -> f64 {
 }
 
 pub fn run(ctx: &Ctx) -> (Report, Meta) {
-    let k_round = 256.0;
+    let k_round = 64.0;
     let meta = Meta::new(
-        "(a) low-level builders with a recording SolOut on bounded and discontinuous problems (forcing rejections), 6 methods, both directions, tolerances, max_step clamps: for every accepted step the interpolant handed to the callback is evaluated at both step ends and compared with the previous and the new state; steps following a rejection and BDF order changes are counted; (b) solve_ivp with dense_output: sol(t_i) vs stored samples, sol/sol_many succeed on the covered span (stored times, midpoints, boundaries +-1 ulp, span ends, random interior) and return OutOfRange clearly outside, sol_span contains x0 and the last reported time, NotEnabled when disabled, zero-length run, runs ended by terminal events and step budgets; non-trivial = run with >= 3 segments (distinct by scenario hash)",
+        "(a) low-level builders with a recording SolOut on bounded and discontinuous problems (forcing rejections) and, for Radau and BDF, stiff Van der Pol oscillators (mu 10..1000, through a relaxation jump), 6 methods, both directions, tolerances, max_step clamps: for every accepted step the interpolant handed to the callback is evaluated at both step ends and compared with the previous and the new state; steps following a rejection and BDF order changes are counted; (b) solve_ivp with dense_output: sol(t_i) vs stored samples, sol/sol_many succeed on the covered span (stored times, midpoints, boundaries +-1 ulp, span ends, random interior) and return OutOfRange clearly outside, sol_span contains x0 and the last reported time, NotEnabled when disabled, zero-length run, runs ended by terminal events and step budgets; non-trivial = run with >= 3 segments (distinct by scenario hash)",
     )
-    .assume("rounding bound for endpoint identities: 256 eps (|y| + (|h|+|t|) |f|) componentwise (the |t||f| term is the effect of one ulp of the evaluation time) (calibrated: worst observed on the unchanged tree is recorded in worst_observed)")
+    .assume("rounding bound for endpoint identities: 64 eps (|y| + (|h|+|t|) max(|f|, |secant slope of the step|)) componentwise (the |t||f| term is the effect of one ulp of the evaluation time) (calibrated: worst observed on the unchanged tree is recorded in worst_observed)")
     .thresholds(json!({"endpoint_rounding_factor": k_round, "clearly_outside": "1e-9*span + 1e-9"}))
     .floor("callback_interpolants_checked", 5000)
     .floor("steps_after_rejection_checked", 100)
@@ -60,6 +60,19 @@ pub fn run(ctx: &Ctx) -> (Report, Meta) {
             scn.xend = scn.x0 + span;
             scn.rtol = Tol::S(scn.rtol.at(0));
             scn.atol = Tol::S(scn.atol.at(0));
+        }
+        if matches!(scn.method, Method::RADAU | Method::BDF) && i % 5 == 1 {
+            // stiff relaxation oscillation: Newton failures, rejected steps and step sizes over six decades
+            let mu = rng.logu(10.0, 1000.0);
+            prob = Simple::VdP { mu };
+            scn.y0 = vec![2.0, 0.0];
+            scn.x0 = 0.0;
+            scn.xend = rng.range(0.3, 2.0) * mu;
+            let rt = rng.logu(1e-7, 1e-3);
+            scn.rtol = Tol::S(rt);
+            scn.atol = Tol::S(rt * rng.logu(1e-3, 1.0));
+            scn.max_step = None;
+            rep.count("stiff_van_der_pol_runs", 1);
         }
         let m = mname(scn.method);
         let mut probe = Probe::new(&prob, scn.x0);
@@ -111,8 +124,12 @@ pub fn run(ctx: &Ctx) -> (Report, Meta) {
             let mut f_new = vec![0.0; n];
             prob.f(cb.xold, &pv.y_after, &mut f_old);
             prob.f(cb.x, &cb.y, &mut f_new);
-            let hf_old: Vec<f64> = f_old.iter().map(|v| v * (h.abs() + cb.xold.abs().max(cb.x.abs()))).collect();
-            let hf_new: Vec<f64> = f_new.iter().map(|v| v * (h.abs() + cb.xold.abs().max(cb.x.abs()))).collect();
+            // slope scale of the interpolant: |f| at the end point or the secant slope of the step, whichever is larger
+            // (at an extremum inside a relaxation jump f vanishes while the polynomial is steep)
+            let tscale = h.abs() + cb.xold.abs().max(cb.x.abs());
+            let sec: Vec<f64> = (0..n).map(|j| ((cb.y[j] - pv.y_after[j]) / h).abs()).collect();
+            let hf_old: Vec<f64> = (0..n).map(|j| f_old[j].abs().max(sec[j]) * tscale).collect();
+            let hf_new: Vec<f64> = (0..n).map(|j| f_new[j].abs().max(sec[j]) * tscale).collect();
             let r_left = round_ratio(&cb.interp[0], &pv.y_after, &hf_old);
             let r_right = round_ratio(&cb.interp[1], &cb.y, &hf_new);
             rep.count("callback_interpolants_checked", 1);
@@ -191,6 +208,23 @@ pub fn run(ctx: &Ctx) -> (Report, Meta) {
         }
         let mut rng = Rng::derive(ctx.seed, 66, i as u64);
         let (prob, mut scn) = gen_case(&mut rng, &g2);
+        let (prob, mut scn) = (prob, scn);
+        let mut prob = prob;
+        if matches!(scn.method, Method::RADAU | Method::BDF) && i % 5 == 1 {
+            let mu = rng.logu(10.0, 1000.0);
+            prob = Simple::VdP { mu };
+            scn.y0 = vec![2.0, 0.0];
+            scn.x0 = 0.0;
+            scn.xend = rng.range(0.3, 2.0) * mu;
+            let rt = rng.logu(1e-7, 1e-3);
+            scn.rtol = Tol::S(rt);
+            scn.atol = Tol::S(rt * rng.logu(1e-3, 1.0));
+            scn.max_step = None;
+            scn.first_step = None;
+            scn.events.clear();
+            scn.max_steps = None;
+            rep.count("stiff_van_der_pol_runs", 1);
+        }
         let m = mname(scn.method);
         scn.t_eval = None;
         if i % 9 == 4 && scn.method != Method::RK4 {
@@ -328,7 +362,19 @@ pub fn run(ctx: &Ctx) -> (Report, Meta) {
             let hh = h.abs().max(h2.abs());
             let mut f = vec![0.0; n];
             prob.f(t, &sol.y[k], &mut f);
-            let hf: Vec<f64> = f.iter().map(|x| x * (hh + t.abs())).collect();
+            let sec = |a: usize, b: usize, j: usize| -> f64 { ((sol.y[b][j] - sol.y[a][j]) / (sol.t[b] - sol.t[a])).abs() };
+            let hf: Vec<f64> = (0..n)
+                .map(|j| {
+                    let mut sl = f[j].abs();
+                    if k + 1 < sol.t.len() && sol.t[k + 1] != t {
+                        sl = sl.max(sec(k, k + 1, j));
+                    }
+                    if k > 0 && sol.t[k - 1] != t {
+                        sl = sl.max(sec(k - 1, k, j));
+                    }
+                    sl * (hh + t.abs())
+                })
+                .collect();
             let r = round_ratio(&v, &sol.y[k], &hf);
             rep.worst(&format!("sample_reproduction_ratio_{}", m), r);
             rep.count("samples_reproduced_checked", 1);
